@@ -258,6 +258,21 @@ def main(tier):
 def replay(rec):
     run = common.Run("C09", "quick")
     p = rec["program"]
+    if rec.get("stage") == "events":
+        # a closed event sequence of Branching.tla replayed through the block API, judged by BranchConf.tla
+        t = common.run_programs(rec["cfg"], [p])[0]
+        e = [x for x in t["events"] if x["op"] == "cfevents"][-1]
+        final = {"x": -99, "y": -99, "z": -99}
+        if e["out"] == "ok":
+            for n, leaf in zip(("x", "y", "z"), e["res"]):
+                final[n] = -99 if leaf["k"] == "none" else leaf["v"]
+        pr = {"id": t["id"], "model": rec["pair"]["model"], "impl": {"raised": e["out"] != "ok", "exc": e["exc"], "final": final}}
+        res = common._tlc_on_chunk("BranchConf", "BranchConf.cfg", {"pairs": [pr]}, 2, False, False, "2g")
+        run.add_tlc(res, "replay")
+        print("replay: %s" % ("violation reproduced (%s)" % res.violated if res.violated else "no violation on the current tree"))
+        return 1 if res.violated else 0
+    if rec.get("stage") == "design":
+        return main("quick")
     traces = common.run_programs(rec["cfg"], [p])
     e = [x for x in traces[0]["events"] if x["op"] == "cf"][-1]
     names = list(p["meta"]["inputs"].keys())
